@@ -240,6 +240,10 @@ func newLikeIndexCmp(filterValue string, isLike bool, isCaseInsensitive bool) (*
 }
 
 func (m *indexLikeMatcher) Match(val client.NormalValue) (bool, error) {
+	if val.IsNil() {
+		// a nil value is not like anything, as when the filter is evaluated on the document
+		return !m.isLike, nil
+	}
 	strVal, ok := val.String()
 	if !ok {
 		if strOptVal, ok := val.NillableString(); ok {
